@@ -343,7 +343,9 @@ void Variable::setInitialValue(double initialValue)
 
 void Variable::setInitialValue(const VariablePtr &variable)
 {
-    pFunc()->mInitialValue = variable->name();
+    if (variable != nullptr) {
+        pFunc()->mInitialValue = variable->name();
+    }
 }
 
 std::string Variable::initialValue() const
